@@ -107,6 +107,59 @@ pub fn run(run: &Run) -> (u64, u64) {
     (a + b, a + b)
 }
 
+/// Part 2: the real search under a virtual clock that advances with the node count (1 microsecond per
+/// node, slower than the checked build measures): virtual time at return < remaining time.
+pub fn virtual_clock_runs(run: &Run) -> (u64, u64) {
+    use crate::engine::search::PersistentState;
+    use crate::session::{run_search, Env, GameSpec, Spec, Tc, DEFAULT_NODE_BUDGET};
+    use crate::verif_hooks::Clock;
+    let positions = ["rnbqkbnr/pppppppp/8/8/8/8/PPPPPPPP/RNBQKBNR w KQkq - 0 1", "r3k2r/p1ppqpb1/bn2pnp1/3PN3/1p2P3/2N2Q1p/PPPBBPPP/R3K2R b KQkq - 0 1", "8/2p5/3p4/KP5r/1R3p1k/8/4P1P1/8 w - - 0 1"];
+    let rems: Vec<u64> = if run.quick() { (200..=2000).step_by(300).collect() } else { (200..=2000).step_by(50).chain([5000, 60_000]).collect() };
+    let mut items = vec![];
+    for p in positions {
+        for rem in &rems {
+            for inc in [0u64, 1000] {
+                for mtg in [None, Some(1u32), Some(40)] {
+                    for oh in [0usize, 50] {
+                        if oh as u64 > rem / 2 {
+                            continue;
+                        }
+                        items.push((p, *rem, inc, mtg, oh));
+                    }
+                }
+            }
+        }
+    }
+    let n = AtomicU64::new(0);
+    let nodes = AtomicU64::new(0);
+    par_for(items.len(), |i| {
+        let (p, rem, inc, mtg, oh) = items[i];
+        let gs = GameSpec::fen(p);
+        let (g, root) = gs.build().unwrap();
+        let white = p.contains(" w ");
+        let (mine, other) = (Some(rem), Some(rem * 9 + 77_000));
+        let tc = if white { Tc::Clocks(mine, other, Some(inc), Some(60_000), mtg) } else { Tc::Clocks(other, mine, Some(60_000), Some(inc), mtg) };
+        let spec = Spec { depth: None, tc, overhead_ms: oh };
+        let mut ps = PersistentState::new(1);
+        let o = run_search(&mut ps, &g, &spec, &Env::Clock(Clock::PerNode(1000)), DEFAULT_NODE_BUDGET);
+        n.fetch_add(1, Ordering::Relaxed);
+        nodes.fetch_add(o.nodes_max, Ordering::Relaxed);
+        let case = || J::obj(vec![("kind", J::s("virtual-clock")), ("fen", J::s(p)), ("remaining_ms", J::i(rem)), ("increment_ms", J::i(inc)), ("movestogo", J::i(mtg.map(i64::from).unwrap_or(-1))), ("overhead_ms", J::i(oh as i64))]);
+        let key = format!("{p} rem {rem} inc {inc} mtg {mtg:?} overhead {oh}");
+        if let Err(e) = crate::session::best_is_legal(&root, &o.best) {
+            run.violation("timed-search-failed", format!("timed-search|{key}"), case(), format!("{key}: {e}"));
+            return;
+        }
+        let used_ms = o.clock_ns / 1_000_000;
+        if used_ms >= rem {
+            run.violation("flagged-on-virtual-clock", format!("flag|{key}"), case(), format!("{key}: the search returned after {used_ms} ms of virtual time (1 microsecond per node, {} nodes) with {rem} ms on the clock", o.nodes_max));
+        }
+    });
+    let a = n.load(Ordering::Relaxed);
+    run.family("VIRTUAL-CLOCK", &format!("3 positions x remaining {:?} ms x increment {{0,1000}} x movestogo {{none,1,40}} x overhead {{0,50}}; real search, clock = nodes x 1 microsecond", rems), a, nodes.load(Ordering::Relaxed) / 10_000, true, "virtual time at return < remaining");
+    (a, a)
+}
+
 pub fn replay(run: &Run, case: &J) {
     let gi = |k: &str| case.get(k).and_then(|x| x.as_i64()).unwrap_or(0);
     let gb = |k: &str| matches!(case.get(k), Some(J::Bool(true)));
